@@ -1,11 +1,13 @@
 use crate::fw::Property;
 
 pub mod c01;
+pub mod c06;
 pub mod c09;
 pub mod c12;
+pub mod c14;
 
 pub fn all() -> Vec<Box<dyn Property>> {
-    vec![Box::new(c01::C01), Box::new(c09::C09), Box::new(c12::C12)]
+    vec![Box::new(c01::C01), Box::new(c06::C06), Box::new(c09::C09), Box::new(c12::C12), Box::new(c14::C14)]
 }
 
 pub fn find(id: &str) -> Option<Box<dyn Property>> {
